@@ -75,6 +75,8 @@ def ops_for(fnlabel):
     }
     if fnlabel in m:
         return m[fnlabel]
+    if fnlabel.startswith('DocumentOrder::') or fnlabel.startswith('HasContext::'):
+        return ['order.script']
     mm = re.match(r'^(info|dom)::(\w+)::(\w+)', fnlabel)
     if mm:
         layer, ty, fn = mm.groups()
